@@ -181,3 +181,324 @@ class Binarize(Contract):
         j = z3.Int('post_j')
         # result[j] is True exactly for the indices that are NOT listed (these are the cells to overwrite)
         return z3.And(result.length == self._n, z3.Implies(z3.And(j >= 0, j < self._n), result.fn(j) == z3.Not(self._idx.member(j))))
+
+
+# ------------------------------------------------------------------------------ apply_category_filters (C17) over symbolic collections
+I_, B_, R_ = z3.IntSort(), z3.BoolSort(), z3.RealSort()
+WORD = z3.Function('acf_word', I_, I_, I_)              # word (identity) of token i of sentence s
+CATAT = z3.Function('acf_category_at', I_, I_)          # category (identity) at position j of `categories`
+INDICT = z3.Function('acf_in_dict', I_, B_)             # the word is a key of category_dict
+LISTS = z3.Function('acf_lists', I_, I_, B_)            # category c is in category_dict[w]
+IDX = z3.Function('acf_category_id', I_, I_)            # category_ids[c]
+TS = z3.Function('acf_tag_score', I_, I_, I_, R_)       # tag_scores of sentence s at (row, column), before the call
+SLEN = z3.Function('acf_len', I_, I_)
+
+
+class _M:
+    def __init__(self, fn):
+        self.fn = fn
+
+    def call(self, I, args, kwargs, node):
+        return self.fn(I, args, kwargs, node)
+
+
+class SymCategories:
+    """the list `categories`: NT pairwise different categories CATAT(0..NT-1)"""
+    def __init__(self, nt):
+        self.nt = nt
+
+    def length(self, I, node):
+        return Z(self.nt)
+
+    def enumerate(self, I, start, node):
+        if start != 0:
+            raise CheckerError('enumerate(categories, start != 0)')
+        return SymEnumCategories(self)
+
+
+class SymEnumCategories:
+    def __init__(self, cats):
+        self.cats = cats
+
+    def dict_comprehension(self, I, e, env, module):
+        import ast
+        g = e.generators[0]
+        # recognised: {cat: index for index, cat in enumerate(categories)}
+        ok = (isinstance(g.target, ast.Tuple) and len(g.target.elts) == 2 and all(isinstance(x, ast.Name) for x in g.target.elts) and not g.ifs
+              and isinstance(e.key, ast.Name) and isinstance(e.value, ast.Name) and e.key.id == g.target.elts[1].id and e.value.id == g.target.elts[0].id)
+        if not ok:
+            raise CheckerError('dict comprehension over enumerate(categories) is not {cat: index for index, cat in enumerate(categories)}')
+        # contract of the comprehension (later entries overwrite earlier ones): the category at position j maps to a position >= j holding the same category
+        j = z3.Int('j!dc')
+        nt = self.cats.nt
+        k = IDX(CATAT(j))
+        I.ctx.assume(z3.ForAll([j], z3.Implies(z3.And(j >= 0, j < nt), z3.And(k >= j, k < nt, CATAT(k) == CATAT(j))), patterns=[CATAT(j)]))
+        # with pairwise different categories: the position itself (lemma idx-inverse: obliged, then used)
+        inv = z3.ForAll([j], z3.Implies(z3.And(j >= 0, j < nt), IDX(CATAT(j)) == j), patterns=[CATAT(j)])
+        I.oblige('lemma', inv, e, extra='idx-inverse: with pairwise different categories, category_ids[categories[j]] = j')
+        I.ctx.assume(inv)
+        return SymIndexMap(self.cats)
+
+
+class SymIndexMap:
+    """category_ids: a category of the list maps to its (last) position; anything else raises KeyError"""
+    def __init__(self, cats):
+        self.cats = cats
+
+    def getitem(self, I, k, node):
+        c = I.ex(k)
+        j = z3.Int('j!im')
+        nt = self.cats.nt
+        present = z3.Exists([j], z3.And(j >= 0, j < nt, CATAT(j) == c))
+        if not I.branch(present, node):
+            raise PyRaise('KeyError', 'category not in the inventory', node)
+        i = IDX(c)
+        I.ctx.assume(z3.And(i >= 0, i < nt, CATAT(i) == c, z3.ForAll([j], z3.Implies(z3.And(j > i, j < nt), CATAT(j) != c))))
+        return Z(i)
+
+
+class SymWordDict:
+    """category_dict: word -> list of categories"""
+    def getattr(self, I, name, node):
+        if name == 'items':
+            return _M(lambda I, args, kwargs, node: SymWordItems())
+        raise CheckerError(f'category_dict.{name}')
+
+
+class SymCatsOf:
+    """category_dict[w]: the categories listed for the word w"""
+    def __init__(self, w):
+        self.w = w
+
+    def comprehension(self, I, e, env, module):
+        import ast
+        g = e.generators[0]
+        if g.ifs or not isinstance(g.target, ast.Name):
+            raise CheckerError('list comprehension over the categories of a word: unexpected shape')
+        # evaluate the element expression once for an ARBITRARY listed category c
+        # (the assumptions made for that element are local to its evaluation: obligations raised there keep them, the path after the comprehension does not -
+        #  an empty list evaluates no element)
+        c = I.fresh('listed_cat', I_)
+        n0 = len(I.ctx.pc)
+        I.ctx.assume(LISTS(self.w, c))
+        sub = Env(env)
+        sub.set(g.target.id, Z(c))
+        v = I.eval(e.elt, sub, module)
+        del I.ctx.pc[n0:]
+        return SymIndexListOf(self.w, c, I.ex(v))
+
+
+class SymIndexListOf:
+    """[f(cat) for cat in cats]: member(j) iff some listed category c has f(c) = j; f was evaluated for the arbitrary listed category c0 giving v0"""
+    def __init__(self, w, c0, v0):
+        self.w, self.c0, self.v0 = w, c0, v0
+
+    def value_for(self, c):
+        return z3.substitute(self.v0, (self.c0, c))
+
+    def member(self, j):
+        c = z3.Int('c!il')
+        return z3.Exists([c], z3.And(LISTS(self.w, c), self.value_for(c) == j))
+
+
+class SymWordItems:
+    def dict_comprehension(self, I, e, env, module):
+        import ast
+        g = e.generators[0]
+        ok = isinstance(g.target, ast.Tuple) and len(g.target.elts) == 2 and all(isinstance(x, ast.Name) for x in g.target.elts) and not g.ifs and isinstance(e.key, ast.Name) and e.key.id == g.target.elts[0].id
+        if not ok:
+            raise CheckerError('dict comprehension over category_dict.items() is not {word: f(cats) for word, cats in ...}')
+        # the value expression is evaluated once for an ARBITRARY key w of the dictionary
+        # (local assumptions as above: an empty dictionary evaluates no value)
+        w = I.fresh('dict_word', I_)
+        n0 = len(I.ctx.pc)
+        I.ctx.assume(INDICT(w))
+        sub = Env(env)
+        sub.set(g.target.elts[0].id, Z(w))
+        sub.set(g.target.elts[1].id, SymCatsOf(w))
+        v = I.eval(e.value, sub, module)
+        del I.ctx.pc[n0:]
+        if not isinstance(v, NPMask):
+            raise CheckerError('the new dictionary value is not a mask')
+        return SymMaskDict(w, v)
+
+
+class SymMaskDict:
+    """the rebuilt category_dict: same keys; the mask of the arbitrary key w0 is known, the mask of any other key is that mask with w0 renamed"""
+    def __init__(self, w0, mask0):
+        self.w0, self.mask0 = w0, mask0
+
+    def contains(self, I, item, node):
+        return Z(INDICT(I.ex(item)))
+
+    def getitem(self, I, k, node):
+        w = I.ex(k)
+        if not I.branch(INDICT(w), node):
+            raise PyRaise('KeyError', 'word', node)
+        m0, w0 = self.mask0, self.w0
+        return NPMask(m0.length, lambda x: z3.substitute(m0.fn(x), (w0, w)))
+
+
+class SymDoc:
+    def __init__(self, ns):
+        self.ns = ns
+
+    def zip_with(self, I, others, node):
+        if len(others) != 1 or not isinstance(others[0], SymScores):
+            raise CheckerError('zip(doc, ...) with something else than score_results')
+        return SymSentenceLoop(self, others[0])
+
+
+class SymScores:
+    def __init__(self, ns, nt):
+        self.ns, self.nt = ns, nt
+        self.writes = []
+
+    def getitem(self, I, k, node):
+        if k == 0:
+            return SymScoreResult(self, z3.IntVal(0))
+        raise CheckerError('score_results[k] for k != 0')
+
+
+class SymScoreResult:
+    def __init__(self, scores, s):
+        self.scores, self.s = scores, s
+
+    def getattr(self, I, name, node):
+        if name == 'tag_scores':
+            return SymTagMatrix(self.scores, self.s)
+        raise CheckerError(f'ScoringResult.{name}')
+
+    def unpack(self, I, n, node):
+        if n != 2:
+            raise PyRaise('ValueError', 'unpack', node)
+        return [SymTagMatrix(self.scores, self.s), 'dep_scores (not touched)']
+
+
+class SymTagMatrix:
+    def __init__(self, scores, s):
+        self.scores, self.s = scores, s
+
+    def getattr(self, I, name, node):
+        if name == 'shape':
+            return (Z(SLEN(self.s)), Z(self.scores.nt))
+        raise CheckerError(f'tag_scores.{name}')
+
+    def setitem(self, I, k, v, node):
+        # numpy contract: a[i, mask] = v writes v at the masked columns of row i and nothing else
+        if not (isinstance(k, tuple) and len(k) == 2 and isinstance(k[1], NPMask)):
+            raise CheckerError('tag_scores indexed with something else than [row, mask]')
+        row = I.ex(k[0])
+        I.oblige('bounds', z3.And(row >= 0, row < SLEN(self.s), k[1].length == self.scores.nt), node, extra='row inside the matrix, mask as long as a row')
+        self.scores.writes.append((self.s, row, k[1], I.ex(v) if not isinstance(v, float) else z3.RealVal(v)))
+
+
+class SymSentenceLoop:
+    """for tokens, (tag_scores, _) in zip(doc, score_results): one ARBITRARY sentence (iterations touch different sentences)"""
+    def __init__(self, doc, scores):
+        self.doc, self.scores = doc, scores
+
+    def for_loop(self, I, st, env, module, qual):
+        if st.orelse:
+            raise CheckerError('for/else')
+        s = I.fresh('sentence', I_)
+        I.ctx.assume(z3.And(s >= 0, s < self.doc.ns, SLEN(s) >= 0))
+        self.scores.iter_s = s
+        I.assign(st.target, (SymSentence(s), SymScoreResult(self.scores, s)), env, module)
+        I.exec_block(st.body, env, module, qual)
+
+
+class SymSentence:
+    def __init__(self, s):
+        self.s = s
+
+    def enumerate(self, I, start, node):
+        if start != 0:
+            raise CheckerError('enumerate(tokens, start != 0)')
+        return SymTokenLoop(self.s)
+
+
+class SymTokenLoop:
+    """for index, token in enumerate(tokens): one ARBITRARY token (iteration i touches row i only)"""
+    def __init__(self, s):
+        self.s = s
+
+    def for_loop(self, I, st, env, module, qual):
+        i = I.fresh('token_index', I_)
+        I.ctx.assume(z3.And(i >= 0, i < SLEN(self.s)))
+        I.ctx.iter_i = i
+        I.assign(st.target, (Z(i), SymTok(self.s, i)), env, module)
+        I.exec_block(st.body, env, module, qual)
+
+
+class SymTok:
+    def __init__(self, s, i):
+        self.s, self.i = s, i
+
+    def getattr(self, I, name, node):
+        if name == 'word':
+            return Z(WORD(self.s, self.i))
+        raise CheckerError(f'token.{name}')
+
+
+class TypeCheck(Contract):
+    """_type_check for a list of sentences with matching score objects returns its arguments (shape clauses: bounded run)"""
+    rel, qualname = REL, '_type_check'
+
+    def apply(self, I, args, kwargs, node):
+        return (args[0], args[1])
+
+
+class BinarizeAt(Binarize):
+    """_binarize at a call site: its proved contract"""
+    def apply(self, I, args, kwargs, node):
+        idx, n = args
+        if not hasattr(idx, 'member'):
+            raise CheckerError('_binarize called with something that is not an index list')
+        n = I.ex(n)
+        j = z3.Int('any_index')
+        I.oblige('pre', z3.ForAll([j], z3.Implies(idx.member(j), z3.And(j >= 0, j < n))), node, extra='precondition of _binarize: every listed index is inside the array')
+        return NPMask(n, lambda x: z3.Not(idx.member(x)))
+
+
+class ApplyCategoryFilters(Contract):
+    rel, qualname = REL, 'apply_category_filters'
+
+    def cases(self, I):
+        def build(I):
+            ns, nt = z3.Int('n_sentences'), z3.Int('n_tags')
+            doc, scores = SymDoc(ns), SymScores(ns, nt)
+            self._pre = (doc, scores, ns, nt)
+            a, b, w, c = z3.Int('a!d'), z3.Int('b!d'), z3.Int('w!d'), z3.Int('c!d')
+            pre = [ns >= 1, nt >= 1,
+                   # the inventory lists pairwise different categories
+                   z3.ForAll([a, b], z3.Implies(z3.And(a >= 0, a < nt, b >= 0, b < nt, a != b), CATAT(a) != CATAT(b))),
+                   # every dictionary category belongs to the inventory (data clause of C17: exhaustive over the shipped files in the bounded part)
+                   z3.ForAll([w, c], z3.Implies(z3.And(INDICT(w), LISTS(w, c)), z3.Exists([a], z3.And(a >= 0, a < nt, CATAT(a) == c))))]
+            lnv = z3.Real('large_negative_value')
+            self._lnv = lnv
+            return [doc, scores, SymCategories(nt), SymWordDict(), Z(lnv)], {}, pre, None
+        yield Case('many-sentences', build)
+
+    def post(self, I, case, args, result):
+        doc, scores, ns, nt = self._pre
+        if not (isinstance(result, tuple) and len(result) == 2 and result[0] is doc and result[1] is scores):
+            return [('returns-arguments', z3.BoolVal(False))]
+        s, i = getattr(scores, 'iter_s', None), getattr(I.ctx, 'iter_i', None)
+        if s is None or i is None:
+            return [('loops', z3.BoolVal(False))]
+        # the arbitrary iteration (s, i) made at most one write, to its own row of its own sentence
+        ws = scores.writes
+        frame = z3.BoolVal(all(w_[0] is s or z3.is_true(z3.simplify(w_[0] == s)) for w_ in ws) and len(ws) <= 1)
+        j, c = z3.Int('j!post'), z3.Int('c!post')
+        w = WORD(s, i)
+        listed = LISTS(w, CATAT(j))          # "the category of column j is listed for the word"
+        want = z3.If(z3.And(INDICT(w), z3.Not(listed)), self._lnv, TS(s, i, j))
+        if ws:
+            _, row, mask, val = ws[0]
+            got = z3.If(z3.And(row == i, mask.fn(j)), val, TS(s, i, j))
+            rowok = row == i
+        else:
+            got, rowok = TS(s, i, j), z3.BoolVal(True)
+        return [('returns-arguments', z3.BoolVal(True)), ('frame', z3.And(frame, rowok)),
+                ('cell', z3.ForAll([j], z3.Implies(z3.And(j >= 0, j < nt), got == want)))]
